@@ -130,6 +130,9 @@ func streamFn(seed uint64, idx int) caseT {
 	// large arrays with ties (stability of sort_by, first-extremal of max_by/min_by)
 	if (sig.name == "sort_by" || sig.name == "max_by" || sig.name == "min_by" || sig.name == "sort") && g.r.chance(30) {
 		m := 13 + g.r.intn(30)
+		if g.r.chance(35) {
+			m = sizeLadder[g.r.intn(len(sizeLadder))]
+		}
 		arr := make([]interface{}, m)
 		strKeys := g.r.chance(40)
 		for i := range arr {
